@@ -5,12 +5,14 @@ from oracle_util import *  # noqa
 from protocol import from_real
 
 ID = "C18"
-LEAN_MODULE = "SCoda.Props.C18"
+LEAN_MODULE = ["SCoda.Props.C18", "SCoda.Props.Notes"]
+LEVEL = "proof"
 CLAUSES = [
     ("pad: events untouched, duration = max(old, n)", ["SCoda.C18.pad_events", "SCoda.C18.pad_duration", "SCoda.C18.pad_ok"]),
     ("cutoff: non-note events and every onset untouched, result sorted, each loop step moves exactly a note-off paired more than m after its note-on to on+r",
      ["SCoda.C18.cutoff_others", "SCoda.C18.cutoff_note_ons", "SCoda.C18.cutoff_sorted", "SCoda.C18.cutoffGo_spec"]),
-    ("cutoff at the level of notes: exactly the notes longer than m get duration r (needs the pairing to survive the final re-sort)", None),
+    ("cutoff at the level of notes: exactly the notes longer than m get duration r, every other note and every onset, pitch, channel, velocity unchanged "
+     "(1 <= r <= m, notes of positive length)", ["SCoda.Notes.cutoff_notes"]),
     ("scale by integer k>=1: every onset, duration and the total duration multiplied by k, nothing else changes",
      ["SCoda.C18.scale_events", "SCoda.C18.scale_duration", "SCoda.C18.scale_notes"]),
     ("set_channel: channel of every event changed, nothing else", ["SCoda.C18.channel_events", "SCoda.C18.channel_duration"]),
